@@ -39,7 +39,9 @@ def check(rep, tier, seed):
                     lines.append("sc pseek %d %d %d ps:%d rf:100 ps:%d rf:10" % (kind, persist, kk, p1, p2))
                     lines.append("sc page %d %d %d pp:%d rf:100 rs:%d rf:1 ts:%.6f" % (kind, persist, kk, p1, r.below(nb + 1), r.below(1000) / 1000.0 * total / 48000.0))
                     lines.append("sc lap %d %d %d rf:50 pl:%d rf:10 hr:%d ps:%d rf:5" % (kind, persist, kk, p2, r.below(2), p1))
-                    nsc += 4
+                    tsec = r.below(1000) / 1000.0 * total / 48000.0
+                    lines.append("sc tlap %d %d %d rf:50 %s:%.6f rf:10 %s:%d rf:5" % (kind, persist, kk, r.choice(["tl", "tq", "tp"]), tsec, r.choice(["ql", "rl"]), r.below(min(total, nb) + 1)))
+                    nsc += 5
         texts.append("\n".join(lines) + "\n")
         metas.append({"case": k, "Ns": fi["Ns"], "kinds": fi["kinds"], "bytes": nb, "scenarios": nsc})
     shards = 16
